@@ -15,7 +15,7 @@ use rustrtc::transports::dtls::{Certificate, fingerprint, generate_certificate};
 use std::collections::VecDeque;
 
 #[derive(Clone, Debug, PartialEq)]
-pub enum Act { Drop, Dup, Swap, FlipBody(u16), CertOther, CertEmpty, CertGarbage, Resign, CertOtherResign, FlipSig, FlipKey, FlipRandom, StripExt(u16), FlipCipher, Fragment(u16), FragDupMid(u16), FragReorder(u16), SeqMinus1, Impostor, ImpostorChain, ExtraCert, RefragTailLost(u16), RefragEvery3(u16), PreInject(u8), ForgeFinishedBad, InsertCert }
+pub enum Act { Drop, Dup, Swap, FlipBody(u16), CertOther, CertEmpty, CertGarbage, Resign, CertOtherResign, FlipSig, FlipKey, FlipRandom, StripExt(u16), FlipCipher, Fragment(u16), FragDupMid(u16), FragReorder(u16), SeqMinus1, Impostor, ImpostorChain, ExtraCert, RefragTailLost(u16), RefragEvery3(u16), PreInject(u8), ForgeFinishedBad, InsertCert, RefragOverlap(u16) }
 
 #[derive(Clone, Debug, PartialEq)]
 pub struct Rule { pub from_client: bool, pub typ: u8, pub act: Act }
@@ -32,7 +32,7 @@ impl Script {
             Act::FlipRandom => "fliprandom".into(), Act::StripExt(e) => format!("strip{e}"), Act::FlipCipher => "flipcipher".into(),
             Act::Fragment(n) => format!("frag{n}"), Act::FragDupMid(n) => format!("fragdup{n}"), Act::FragReorder(n) => format!("fragreorder{n}"),
             Act::SeqMinus1 => "seqminus1".into(), Act::Impostor => "impostor".into(), Act::ImpostorChain => "impostorchain".into(),
-            Act::ExtraCert => "extracert".into(), Act::RefragTailLost(n) => format!("refragtaillost{n}"), Act::RefragEvery3(n) => format!("refragevery{n}"),
+            Act::ExtraCert => "extracert".into(), Act::RefragTailLost(n) => format!("refragtaillost{n}"), Act::RefragEvery3(n) => format!("refragevery{n}"), Act::RefragOverlap(n) => format!("refragoverlap{n}"),
             Act::PreInject(ct) => format!("preinject{ct}"), Act::ForgeFinishedBad => "forgefinishedbad".into(), Act::InsertCert => "insertcert".into() })).collect();
         format!("ce={} se={} {}", self.ce, self.se, if rs.is_empty() { "-".into() } else { rs.join(";") })
     }
@@ -50,7 +50,7 @@ impl Script {
                 "flipkey" => Act::FlipKey, "fliprandom" => Act::FlipRandom, "flipcipher" => Act::FlipCipher, "seqminus1" => Act::SeqMinus1, "forgefinishedbad" => Act::ForgeFinishedBad, "insertcert" => Act::InsertCert, "impostor" => Act::Impostor, "impostorchain" => Act::ImpostorChain, "extracert" => Act::ExtraCert,
                 x if x.starts_with("flipbody") => Act::FlipBody(num("flipbody")), x if x.starts_with("strip") => Act::StripExt(num("strip")),
                 x if x.starts_with("preinject") => Act::PreInject(num("preinject") as u8),
-                x if x.starts_with("refragtaillost") => Act::RefragTailLost(num("refragtaillost")), x if x.starts_with("refragevery") => Act::RefragEvery3(num("refragevery")),
+                x if x.starts_with("refragtaillost") => Act::RefragTailLost(num("refragtaillost")), x if x.starts_with("refragevery") => Act::RefragEvery3(num("refragevery")), x if x.starts_with("refragoverlap") => Act::RefragOverlap(num("refragoverlap")),
                 x if x.starts_with("fragdup") => Act::FragDupMid(num("fragdup")), x if x.starts_with("fragreorder") => Act::FragReorder(num("fragreorder")),
                 x if x.starts_with("frag") => Act::Fragment(num("frag")), x => panic!("bad act {x}") };
             rules.push(Rule { from_client: p[0] == "c>s", typ: p[1].parse().unwrap(), act });
@@ -177,6 +177,18 @@ fn apply(act: &Act, dg: &[u8], atk: &Attacker, randoms: &(Vec<u8>, Vec<u8>), occ
             if occ == 0 { frags.pop(); }
             frags
         }
+        Act::RefragOverlap(a) => {
+            // every (re)transmission arrives as two fragments whose ranges overlap ([0,hi) and [lo,n), lo < hi):
+            // legal (RFC 6347 section 4.2.3 asks receivers to handle overlapping ranges)
+            let r = &parse_records(dg)[0]; let m = &parse_hs(&r.body)[0];
+            let n = m.body.len();
+            if n < 6 { return vec![dg.to_vec()]; }
+            let lo = ((*a as usize + 7 * occ) % (n - 4)).max(1);
+            let hi = (lo + 1 + (n - lo) / 2).min(n - 1);
+            let piece = |lo: usize, hi: usize, k: u64| record_bytes(22, (r.vmaj, r.vmin), 0, r.seq + 100 * (k + 1),
+                &hs_bytes(m.typ, n as u32, m.seq, lo as u32, &m.body[lo..hi]));
+            vec![piece(0, hi, 0), piece(lo, n, 1)]
+        }
         Act::FragDupMid(a) | Act::FragReorder(a) => {
             // three fragments [0,a) [a,2a) [2a,..): the middle one twice, or the last two swapped
             let r = &parse_records(dg)[0]; let m = &parse_hs(&r.body)[0];
@@ -273,7 +285,7 @@ pub async fn run_script_ticks(sc: &Script, max_ticks: u32) -> Option<Outcome> {
         let mut swap = false;
         for (i, r) in sc.rules.iter().enumerate() {
             if !used[i] && r.from_client == from_client && r.typ == k {
-                let persistent = matches!(r.act, Act::RefragTailLost(_) | Act::RefragEvery3(_));
+                let persistent = matches!(r.act, Act::RefragTailLost(_) | Act::RefragEvery3(_) | Act::RefragOverlap(_));
                 if !persistent { used[i] = true; }
                 if r.act == Act::Swap { swap = true; } else { outs = outs.iter().flat_map(|d| apply(&r.act, d, &atk, &randoms, occ[i])).collect(); }
                 occ[i] += 1;
